@@ -27,7 +27,8 @@ ALLOWED_AXIOMS = []
 PINNED = ["C18_order_full", "C18_order_ties", "C18_insert_keeps_order", "C18_full", "C18_insert_text", "C18_insert_appends", "C18_select_text", "C18_select_params", "C18_select_arity",
           "C18_row_matches", "C18_list_sound", "C18_list_complete", "C18_search_complete", "C18_delete_exact",
           "C18_delete_text", "C18_record_rule", "C18_record_sound", "C18_record_complete", "C18_record_independent",
-          "C18_record_first", "C18_record_processes"]
+          "C18_record_first", "C18_record_processes", "C18_record_space_led", "C18_record_space_led_run", "C18_record_origin",
+          "C18_record_expanded", "C18_bang_unchanged"]
 TRUSTED = [
     "Coq 8.16.1 kernel (coqc; coqchk in thorough); vm_compute only in the Example",
     "hand transcription of the statement templates, parameter vectors and of the main loop's recording rule "
@@ -559,16 +560,32 @@ L3_WORDS = ["true", "true a", "true 'it''s'", "true \"it's\" %_", "true a\\\\b ;
 L3_SAFE = ["true", "true a", "true  b", "true é日", "echo one >/dev/null", "true -- x"]
 
 
+def ref_bang(prev, line):
+    """tools::extend_bangbang for lines of plain blank-separated words: unchanged without `!!` or while nothing was
+    recorded yet; else the words joined by single blanks with `!!` replaced by the previously recorded line"""
+    if "!!" not in line or prev == "":
+        return line
+    return " ".join(w.replace("!!", prev) for w in line.split(" ") if w != "")
+
+
 def ref_session(typed):
-    """the property, for ONE process: every typed line once, except blank / leading-space lines and a line equal to the
-    line recorded just before it IN THIS PROCESS"""
-    prev, exp = None, []
+    """the property, for ONE process: every typed line once -- its `!!` expanded, which is the text the shell runs and
+    records -- except blank lines, lines TYPED with a leading blank (whatever else they hold), and a line whose text equals
+    the line recorded just before it IN THIS PROCESS"""
+    prev, exp = "", []
     for t in typed:
-        if t.startswith(" ") or not t.strip() or t == prev:
+        if not t.strip():
             continue
-        exp.append(t)
-        prev = t
+        line = ref_bang(prev, t)
+        if t.startswith(" ") or line == prev:
+            continue
+        exp.append(line)
+        prev = line
     return exp
+
+
+L3_BANG = [" true hidden-bang !!", " true !! hidden-tail", " !! hidden-head", "true shown !!", "true  two-blanks  !! tail", "!!",
+           " !!", "true x!!y"]
 
 
 def gen_sequence(rng, ix):
@@ -602,6 +619,8 @@ def gen_sequence(rng, ix):
                 w = typed[-1]                                 # immediate repeat
             elif r < 0.4:
                 w = " " + w                                   # leading space
+            elif r < 0.6 and ix % 2 == 0:
+                w = rng.choice(L3_BANG)                       # `!!`, with and without a leading blank (plain-word sessions only)
             typed.append(w)
         if k == 0:
             j = rng.randint(0, len(typed) - 1)
@@ -659,6 +678,9 @@ def layer3(ctx, res, V, work):
     seqs = [[{"k": "I", "typed": ["echo one >/dev/null"]}, {"k": "A", "line": "echo two", "now": False},
              {"k": "I", "typed": ["echo one >/dev/null", "echo one >/dev/null", "echo two"]}],
             [{"k": "I", "fast": True, "typed": ["true mark-%d" % i for i in range(1, 7)]}],
+            # (3) `!!` with and without a leading blank, other text before / after it
+            [{"k": "I", "typed": ["!! first", "true a", " true hidden-bang !!", "true shown !!", " !!", "!!", " true !! hidden-tail",
+                                  "true  pre  !! post", " true c", "true x!!y"]}],
             [{"k": "I", "fast": True, "typed": ["true a", "true b", "true c"]}, {"k": "A", "line": "true added", "now": True},
              {"k": "I", "fast": True, "typed": ["true d", "true e", "true a"]}]]
     for i in range(n):
@@ -690,7 +712,10 @@ def layer3(ctx, res, V, work):
                 # the pty did not show a prompt in time (overloaded machine): not a verdict about the shell
                 res.extra["L3_sequences_not_evaluated_timeout"] = res.extra.get("L3_sequences_not_evaluated_timeout", 0) + 1
                 continue
+            k = next((i for i in range(min(len(g), len(exp))) if g[i] != exp[i]), min(len(g), len(exp)))
             V.violate(kind="oracle", failing_input=True, procs=procs, input=describe_procs(procs), expected=exp, observed=g,
+                      first_difference={"row": k + 1, "expected": exp[k] if k < len(exp) else None,
+                                        "observed": g[k] if k < len(g) else None},
                       entry="shell processes sharing one database (HISTORY_DELETE_DUPS=0)",
                       note="rows in the database differ from: every submitted line once per submission, verbatim, except "
                            "leading-space lines and immediate repeats within one session")
